@@ -175,3 +175,9 @@ add("half_unshifted_den", "C06", "R06.5", "to_f32",
 
 add("r02_5_2by1_precondition", "C02", "R02.5", "rem_dword",
     [("integer/src/div_const.rs", "            let hi = if hi >= d { hi - d } else { hi };\n", "            let _ = d;\n")])
+
+add("r18_3_zero_endpoint", "C18", "R18.3", "zero return",
+    [("rational/src/simplify.rs", "            (true, false) => upper.numerator.sign(),\n", "            (true, false) => return Self::zero(),\n")])
+
+add("r10_6_unlimited_source", "C10", "R10.6", "unrounded",
+    [("float/src/convert.rs", "        let repr = if self.context.precision > precision\n            || (!self.context.is_limited() && !self.repr.is_infinite())\n        {", "        let repr = if self.context.precision > precision {")])
